@@ -23,6 +23,7 @@ var props = map[string]propSpec{
 	"C06": {Level: "fault_enumeration", Harnesses: []harnessSpec{
 		{Name: "fwd", Quick: 400, Thorough: 1800, Args: []string{"-prop", "C06"}},
 		{Name: "bboxagent", NoRewrite: true, Quick: 300, Thorough: 900, Args: []string{"-prop", "C06"}},
+		{Name: "agentw", Quick: 300, Thorough: 600, Args: []string{"-prop", "C01", "-report", "C06", "-scn", "c01/history"}},
 	}, Assume: []string{
 		"the proxy endpoint is a scripted http.RoundTripper; 'lingering' models net/http's documented freedom to keep reading the request body after RoundTrip returns (one more Read, as the transport's write loop does)",
 		"fault plans: up to 3 attempts, kinds {5xx, connection error}, read positions {0,1,17,4095,4096,4097,all}",
